@@ -484,3 +484,222 @@ Proof. intros Hi Hc. unfold spec_table. rewrite nth_map_seq by exact Hi. rewrite
 (* the parameter check implies the sortedness hypothesis of the theorems *)
 Lemma prc_param_asc D T : prc_param_ok D T = true -> asc T.
 Proof. unfold prc_param_ok. intros H. apply andb_prop in H as [H _]. apply sortedb_asc, H. Qed.
+
+(* ======================================================================================== *)
+(* C06 item 3: binned AUROC = exact AUROC of the scores rounded down to the nearest threshold  *)
+(* ======================================================================================== *)
+(* ---- the binned AUROC counts are per-threshold counts ---- *)
+Lemma broc_tp_spec T xs : broc_tp T xs = map (fun t => tp_spec t xs) T.
+Proof.
+  unfold broc_tp, tp_spec. apply map_ext. intros t. rewrite <- sum_b2z. f_equal. apply map_ext. intros x.
+  destruct (t <=? fst x), (snd x); reflexivity.
+Qed.
+Lemma broc_fp_spec T xs : broc_fp T xs = map (fun t => fp_spec t xs) T.
+Proof.
+  unfold broc_fp, fp_spec. apply map_ext. intros t.
+  pose proof (cnt_and_neg (fun x : sample => t <=? fst x) (fun x => snd x) xs) as H.
+  transitivity (cnt (fun x : sample => t <=? fst x) xs - cnt (fun x : sample => (t <=? fst x) && snd x) xs); [|exact H].
+  f_equal.
+  - apply (sum_b2z (fun x : sample => t <=? fst x)).
+  - rewrite <- sum_b2z. f_equal. apply map_ext. intros x. destruct (t <=? fst x), (snd x); reflexivity.
+Qed.
+
+(* ---- twice the trapezoid area, over the ascending threshold list ---- *)
+Fixpoint trap2 (tp fp : list Z) : Z :=
+  match tp, fp with
+  | a :: tp', b :: fp' => (b - hd 0 fp') * (a + hd 0 tp') + trap2 tp' fp'
+  | _, _ => 0
+  end.
+Definition trapF (f g : Z -> Z) (T : list Z) : Z := trap2 (map f T) (map g T).
+Lemma trapF_cons f g t T : trapF f g (t :: T) = (g t - hd 0 (map g T)) * (f t + hd 0 (map f T)) + trapF f g T.
+Proof. reflexivity. Qed.
+Lemma trapF_ext_in f f' g g' T : (forall t, In t T -> f t = f' t) -> (forall t, In t T -> g t = g' t) -> trapF f g T = trapF f' g' T.
+Proof. intros Hf Hg. unfold trapF. rewrite (map_ext_in f f' T Hf), (map_ext_in g g' T Hg). reflexivity. Qed.
+Lemma trapF_ext f f' g g' T : (forall t, f t = f' t) -> (forall t, g t = g' t) -> trapF f g T = trapF f' g' T.
+Proof. intros Hf Hg. apply trapF_ext_in; intros; auto. Qed.
+Lemma hd_map_add (f f' : Z -> Z) (T : list Z) : hd 0 (map (fun t => f t + f' t) T) = hd 0 (map f T) + hd 0 (map f' T).
+Proof. destruct T; reflexivity. Qed.
+Lemma hd_map_0 (T : list Z) : hd 0 (map (fun _ : Z => 0) T) = 0.
+Proof. destruct T; reflexivity. Qed.
+Lemma trapF_add_l f f' g T : trapF (fun t => f t + f' t) g T = trapF f g T + trapF f' g T.
+Proof. induction T as [|t T IH]; [reflexivity|]. rewrite !trapF_cons, IH, hd_map_add. ring. Qed.
+Lemma trapF_add_r f g g' T : trapF f (fun t => g t + g' t) T = trapF f g T + trapF f g' T.
+Proof. induction T as [|t T IH]; [reflexivity|]. rewrite !trapF_cons, IH, hd_map_add. ring. Qed.
+Lemma trapF_0_l g T : trapF (fun _ => 0) g T = 0.
+Proof. induction T as [|t T IH]; [reflexivity|]. rewrite trapF_cons, IH, hd_map_0. ring. Qed.
+Lemma trapF_0_r f T : trapF f (fun _ => 0) T = 0.
+Proof. induction T as [|t T IH]; [reflexivity|]. rewrite trapF_cons, IH, hd_map_0. ring. Qed.
+Lemma trapF_sum_l {X} (h : X -> Z -> Z) g T (xs : list X) :
+  trapF (fun t => sumZ (map (fun x => h x t) xs)) g T = sumZ (map (fun x => trapF (h x) g T) xs).
+Proof.
+  induction xs as [|x xs IH]; [apply trapF_0_l|]. cbn [map sumZ fold_right].
+  fold (sumZ (map (fun x => trapF (h x) g T) xs)). rewrite <- IH. apply (trapF_add_l (h x)).
+Qed.
+Lemma trapF_sum_r {X} f (h : X -> Z -> Z) T (xs : list X) :
+  trapF f (fun t => sumZ (map (fun x => h x t) xs)) T = sumZ (map (fun x => trapF f (h x) T) xs).
+Proof.
+  induction xs as [|x xs IH]; [apply trapF_0_r|]. cbn [map sumZ fold_right].
+  fold (sumZ (map (fun x => trapF f (h x) T) xs)). rewrite <- IH. apply (trapF_add_r f (h x)).
+Qed.
+
+(* ---- floors ---- *)
+Lemma filter_above (T : list Z) s : Forall (fun u => s < u) T -> filter (fun t => t <=? s) T = [].
+Proof. induction 1 as [|u T Hu _ IH]; [reflexivity|]. cbn [filter]. destruct (Z.leb_spec u s); [lia|exact IH]. Qed.
+Lemma last_ge (c : Z) : forall l, l <> [] -> Forall (Z.le c) l -> c <= last l 0.
+Proof.
+  induction l as [|x l IH]; intros Hne Hall; [congruence|]. inversion Hall; subst.
+  destruct l as [|y l]; [exact H1|]. change (last (x :: y :: l) 0) with (last (y :: l) 0). apply IH; [discriminate|assumption].
+Qed.
+(* T = t :: t1 :: T'' sorted *)
+Lemma floor_skip t t1 T s : t <= s -> t1 <= s -> floorT (t :: t1 :: T) s = floorT (t1 :: T) s.
+Proof.
+  intros H H1. unfold floorT. cbn [filter]. destruct (Z.leb_spec t s); [|lia]. destruct (Z.leb_spec t1 s); [|lia]. reflexivity.
+Qed.
+Lemma floor_first t T s : t <= s -> Forall (fun u => s < u) T -> floorT (t :: T) s = t.
+Proof.
+  intros H Hall. unfold floorT. cbn [filter]. destruct (Z.leb_spec t s); [|lia]. rewrite (filter_above T s Hall). reflexivity.
+Qed.
+Lemma floor_ge_hd t1 T s : asc (t1 :: T) -> t1 <= s -> t1 <= floorT (t1 :: T) s.
+Proof.
+  intros Hs H. unfold floorT. cbn [filter]. destruct (Z.leb_spec t1 s); [|lia].
+  apply last_ge; [discriminate|]. constructor; [lia|]. inversion Hs as [|? ? _ Hall]; subst.
+  apply Forall_forall. intros u Hu. apply filter_In in Hu as [Hu _]. rewrite Forall_forall in Hall. apply Hall, Hu.
+Qed.
+Lemma asc_above t1 T s : asc (t1 :: T) -> s < t1 -> Forall (fun u => s < u) (t1 :: T).
+Proof.
+  intros Hs H. inversion Hs as [|? ? _ Hall]; subst. constructor; [exact H|].
+  apply Forall_forall. intros u Hu. rewrite Forall_forall in Hall. specialize (Hall u Hu). lia.
+Qed.
+
+Definition ind (s t : Z) : Z := b2z (t <=? s).
+Lemma ind_zero_above s T : Forall (fun u => s < u) T -> forall t, In t T -> ind s t = 0.
+Proof. intros Hall t Ht. rewrite Forall_forall in Hall. specialize (Hall t Ht). unfold ind. destruct (Z.leb_spec t s); [lia|reflexivity]. Qed.
+
+(* one (negative a, positive b) pair: its trapezoid contribution is 2 / 1 / 0 according to the FLOORED scores *)
+Lemma seg_pair : forall T a b, asc T -> T <> [] -> hd 0 T <= a -> hd 0 T <= b ->
+  trapF (ind b) (ind a) T = 2 * b2z (floorT T a <? floorT T b) + b2z (floorT T a =? floorT T b).
+Proof.
+  induction T as [|t T IH]; intros a b Hs Hne Ha Hb; [congruence|]. cbn [hd] in Ha, Hb.
+  assert (Ea : ind a t = 1) by (unfold ind; destruct (Z.leb_spec t a); [reflexivity|lia]).
+  assert (Eb : ind b t = 1) by (unfold ind; destruct (Z.leb_spec t b); [reflexivity|lia]).
+  rewrite trapF_cons, Ea, Eb. destruct T as [|t1 T].
+  - cbn [map hd]. change (trapF (ind b) (ind a) []) with 0.
+    rewrite !floor_first by (try assumption; constructor).
+    rewrite Z.ltb_irrefl, Z.eqb_refl. reflexivity.
+  - inversion Hs as [|? ? Hs' Hall]; subst. assert (Htt1 : t <= t1) by (inversion Hall; assumption).
+    cbn [map hd]. unfold ind at 1 2. destruct (Z.leb_spec t1 a) as [Ha1|Ha1]; destruct (Z.leb_spec t1 b) as [Hb1|Hb1]; cbn [b2z].
+    + rewrite (IH a b Hs') by (try discriminate; cbn [hd]; assumption). rewrite !floor_skip by assumption. ring.
+    + (* a >= t1 > b : floor a >= t1 > floor b = t *)
+      rewrite (trapF_ext_in (ind b) (fun _ => 0) (ind a) (ind a)) by (intros t' Ht'; first [reflexivity | apply (ind_zero_above b (t1 :: T)); [apply asc_above; assumption | assumption]]).
+      rewrite trapF_0_l. rewrite (floor_skip t t1 T a) by assumption.
+      rewrite (floor_first t (t1 :: T) b) by (try assumption; apply asc_above; assumption).
+      pose proof (floor_ge_hd t1 T a Hs' Ha1).
+      destruct (Z.ltb_spec (floorT (t1 :: T) a) t); [lia|]. destruct (Z.eqb_spec (floorT (t1 :: T) a) t); [lia|]. reflexivity.
+    + (* a < t1 <= b *)
+      rewrite (trapF_ext_in (ind b) (ind b) (ind a) (fun _ => 0)) by (intros t' Ht'; first [reflexivity | apply (ind_zero_above a (t1 :: T)); [apply asc_above; assumption | assumption]]).
+      rewrite trapF_0_r. rewrite (floor_skip t t1 T b) by assumption.
+      rewrite (floor_first t (t1 :: T) a) by (try assumption; apply asc_above; assumption).
+      pose proof (floor_ge_hd t1 T b Hs' Hb1).
+      destruct (Z.ltb_spec t (floorT (t1 :: T) b)); [|lia]. destruct (Z.eqb_spec t (floorT (t1 :: T) b)); [lia|]. reflexivity.
+    + rewrite (trapF_ext_in (ind b) (ind b) (ind a) (fun _ => 0)) by (intros t' Ht'; first [reflexivity | apply (ind_zero_above a (t1 :: T)); [apply asc_above; assumption | assumption]]).
+      rewrite trapF_0_r.
+      rewrite !(floor_first t (t1 :: T)) by (try assumption; apply asc_above; assumption).
+      rewrite Z.ltb_irrefl, Z.eqb_refl. reflexivity.
+Qed.
+
+Theorem trap2_pair2 T xs : asc T -> T <> [] -> (forall x, In x xs -> hd 0 T <= fst x) ->
+  trap2 (map (fun t => tp_spec t xs) T) (map (fun t => fp_spec t xs) T) = pair2 (floored T xs).
+Proof.
+  intros Hs Hne Hge. change (trap2 _ _) with (trapF (fun t => tp_spec t xs) (fun t => fp_spec t xs) T).
+  rewrite (trapF_ext _ (fun t => sumZ (map (fun p : sample => b2z ((t <=? fst p) && snd p)) xs))
+                     _ (fun t => sumZ (map (fun q : sample => b2z ((t <=? fst q) && negb (snd q))) xs)))
+    by (intros t; unfold tp_spec, fp_spec; symmetry; apply sum_b2z).
+  rewrite (trapF_sum_r _ (fun (q : sample) t => b2z ((t <=? fst q) && negb (snd q)))).
+  unfold pair2, floored. rewrite map_map. f_equal. apply map_ext_in. intros q Hq. cbn [fst snd].
+  destruct (snd q) eqn:Eq.
+  - rewrite (trapF_ext _ (fun t => sumZ (map (fun p : sample => b2z ((t <=? fst p) && snd p)) xs)) _ (fun _ => 0))
+      by (intros t; try reflexivity; rewrite andb_false_r; reflexivity).
+    apply trapF_0_r.
+  - rewrite (trapF_sum_l (fun (p : sample) t => b2z ((t <=? fst p) && snd p))). rewrite map_map. f_equal.
+    apply map_ext_in. intros p Hp. cbn [fst snd]. destruct (snd p) eqn:Ep.
+    + rewrite (trapF_ext _ (ind (fst p)) _ (ind (fst q))) by (intros t; unfold ind; rewrite ?andb_true_r; reflexivity).
+      apply seg_pair; try assumption; apply Hge; assumption.
+    + rewrite (trapF_ext _ (fun _ => 0) _ (ind (fst q))) by (intros t; unfold ind; rewrite ?andb_true_r, ?andb_false_r; reflexivity).
+      apply trapF_0_l.
+Qed.
+
+(* ---- rational glue: torch.trapz over the padded, reversed count vectors ---- *)
+Section QcGlue.
+Local Open Scope Qc_scope.
+Lemma zq_add a b : zq (a + b) = zq a + zq b.
+Proof. unfold zq, mkq. apply Qc_is_canon. unfold Qcplus, Q2Qc, this. rewrite !Qred_correct. unfold Qeq, Qplus. simpl. lia. Qed.
+Lemma zq_mul a b : zq (a * b) = zq a * zq b.
+Proof. unfold zq, mkq. apply Qc_is_canon. unfold Qcmult, Q2Qc, this. rewrite !Qred_correct. unfold Qeq, Qmult. simpl. lia. Qed.
+Lemma zq_sub a b : zq (a - b) = zq a - zq b.
+Proof. unfold zq, mkq, Qcminus, Qcopp. apply Qc_is_canon. unfold Qcplus, Q2Qc, this. rewrite !Qred_correct. unfold Qeq, Qplus, Qopp. simpl. lia. Qed.
+Lemma zq_0 : zq 0 = 0.
+Proof. apply Qc_is_canon. reflexivity. Qed.
+
+Lemma sumQ_snoc l z : sumQ (l ++ [z]) = sumQ l + z.
+Proof. induction l as [|a l IH]; cbn [app sumQ fold_right]; [ring|]. fold (sumQ (l ++ [z])). fold (sumQ l). rewrite IH. ring. Qed.
+Lemma map2_snoc_shift {A B} (g : A -> A -> B) (d a : A) : forall xs x0,
+  map2 g (xs ++ [a]) (x0 :: (xs ++ [a])) = map2 g xs (x0 :: xs) ++ [g a (last (x0 :: xs) d)].
+Proof.
+  induction xs as [|x1 xs IH]; intros x0; [reflexivity|]. cbn [app map2]. rewrite IH. reflexivity.
+Qed.
+Lemma map2_length_shift {A B} (g : A -> A -> B) : forall xs x0, length (map2 g xs (x0 :: xs)) = length xs.
+Proof. induction xs as [|x1 xs IH]; intros x0; [reflexivity|]. cbn [map2 length]. rewrite IH. reflexivity. Qed.
+Lemma map2_snoc {A B C} (h : A -> B -> C) : forall la lb p q, length la = length lb ->
+  map2 h (la ++ [p]) (lb ++ [q]) = map2 h la lb ++ [h p q].
+Proof.
+  induction la as [|a la IH]; intros [|b lb] p q Hl; try discriminate; [reflexivity|].
+  cbn [app map2]. rewrite IH by (cbn in Hl; lia). reflexivity.
+Qed.
+Lemma trapz_snoc y0 ys x0 xs y x : length ys = length xs ->
+  trapz ((y0 :: ys) ++ [y]) ((x0 :: xs) ++ [x])
+  = trapz (y0 :: ys) (x0 :: xs) + (x - last (x0 :: xs) 0) * (y + last (y0 :: ys) 0) / (1 + 1).
+Proof.
+  intros Hl. unfold trapz. cbn [app tl].
+  rewrite (map2_snoc_shift Qcminus 0 x xs x0), (map2_snoc_shift Qcplus 0 y ys y0).
+  rewrite map2_snoc by (rewrite !map2_length_shift; lia). rewrite sumQ_snoc. reflexivity.
+Qed.
+Lemma last_rev_hd l : last (0 :: rev (map zq l)) 0 = zq (hd 0%Z l).
+Proof.
+  destruct l as [|a l]; [cbn; symmetry; apply zq_0|]. cbn [map rev hd].
+  change (0 :: rev (map zq l) ++ [zq a]) with ((0 :: rev (map zq l)) ++ [zq a]). apply last_last.
+Qed.
+Lemma trapz_rev : forall tp fp, length tp = length fp ->
+  trapz (0 :: rev (map zq tp)) (0 :: rev (map zq fp)) = zq (trap2 tp fp) / (1 + 1).
+Proof.
+  induction tp as [|a tp IH]; intros [|b fp] Hl; try discriminate.
+  - cbn. rewrite zq_0. unfold Qcdiv. ring.
+  - cbn [map rev].
+    change (0 :: rev (map zq tp) ++ [zq a]) with ((0 :: rev (map zq tp)) ++ [zq a]).
+    change (0 :: rev (map zq fp) ++ [zq b]) with ((0 :: rev (map zq fp)) ++ [zq b]).
+    rewrite trapz_snoc by (rewrite !rev_length, !map_length; cbn in Hl; lia).
+    rewrite IH by (cbn in Hl; lia). rewrite !last_rev_hd. cbn [trap2].
+    rewrite zq_add, zq_mul, zq_sub, zq_add. unfold Qcdiv. ring.
+Qed.
+End QcGlue.
+
+Lemma hd_map_nonempty (f : Z -> Z) T : T <> [] -> hd 0 (map f T) = f (hd 0 T).
+Proof. destruct T; [congruence|reflexivity]. Qed.
+Lemma all_above_tp t xs : (forall x : sample, In x xs -> t <= fst x) -> tp_spec t xs = pos_spec xs /\ fp_spec t xs = neg_spec xs.
+Proof.
+  intros H. unfold tp_spec, fp_spec, pos_spec, neg_spec. split; apply cnt_ext_in; intros x Hx; specialize (H x Hx);
+    destruct (Z.leb_spec t (fst x)); try lia; reflexivity.
+Qed.
+Lemma floored_labels T xs : pos_spec (floored T xs) = pos_spec xs /\ neg_spec (floored T xs) = neg_spec xs.
+Proof. unfold pos_spec, neg_spec, floored. rewrite !cnt_map. split; reflexivity. Qed.
+
+(* binned AUROC (threshold list starting at or below every score) = exact AUROC, ties 1/2, of the scores
+   rounded down to the nearest threshold; 1/2 when a class is empty on both sides *)
+Theorem binned_auroc_floor_thm T xs : asc T -> T <> [] -> (forall x, In x xs -> hd 0 T <= fst x) ->
+  binary_binned_auroc T xs = auroc_exact (floored T xs).
+Proof.
+  intros Hs Hne Hge. unfold binary_binned_auroc, auroc_of_counts, auroc_exact. cbv zeta.
+  rewrite broc_tp_spec, broc_fp_spec, trapz_rev by (rewrite !map_length; reflexivity).
+  rewrite !last_rev_hd, !hd_map_nonempty by exact Hne.
+  destruct (all_above_tp (hd 0 T) xs Hge) as [-> ->]. destruct (floored_labels T xs) as [-> ->].
+  rewrite trap2_pair2 by assumption. reflexivity.
+Qed.
